@@ -1,17 +1,23 @@
 package checks
 
 import (
+	"encoding/json"
+	"fmt"
+	"os"
+	"strings"
+	"sync"
 	"testing"
 
 	"pgregory.net/rapid"
 
 	"verif/harness/cs"
+	"verif/harness/ev"
 	"verif/harness/gen"
 	"verif/harness/run"
 	"verif/harness/sm"
 )
 
-const ruleC20 = "model-based state machine with a hostile action mix: criteria rich in negated In/Like/Exists/Contains/MatchFunc, field-reference and un-normalisable operands on collections with 0-2 indexes, every API on missing collections/indexes/documents, empty batches and empty names, malformed ids, Close followed by every API (including bursts of 480 calls), double Close, reopen; on bbolt and badger. Every clover call of every engine runs under recover() and a per-call deadline; a panic or a hang is a violation. An evaluation is one step; non-trivial when the call belongs to a hostile class (negated non-comparison leaf, field-reference or bad operand, missing target, after Close, malformed id, empty batch); distinct = distinct (operation, model state)."
+const ruleC20 = "model-based state machine with a hostile action mix: criteria rich in negated In/Like/Exists/Contains/MatchFunc, field-reference and un-normalisable operands on collections with 0-2 indexes, every API on missing collections/indexes/documents, empty batches and empty names, malformed ids, Close followed by every API (including bursts of 480 calls), double Close, reopen; on bbolt and badger. Every clover call of every engine runs under recover() and a per-call deadline; a panic or a hang is a violation. An evaluation is one step; non-trivial when the call belongs to a hostile class (negated non-comparison leaf, field-reference or bad operand, missing target, after Close, malformed id, empty batch); distinct = distinct (operation, model state). A second part runs concurrent programs (all operation kinds incl. regular-expression criteria) and 2-8 simultaneous Close calls on one handle: no call may panic or hang."
 
 func c20Profile() *sm.Profile {
 	return &sm.Profile{
@@ -45,7 +51,24 @@ func c20Session(backend string) (*sm.Session, error) {
 	return s, nil
 }
 
-func init() { registerSM("C20", "c20", c20Session) }
+func init() {
+	registerSM("C20", "c20", c20Session)
+	replayers["c20close"] = func(raw json.RawMessage) *sm.Fail {
+		var c struct {
+			Backend string `json:"backend"`
+			Closers int    `json:"closers"`
+		}
+		if err := json.Unmarshal(raw, &c); err != nil {
+			return &sm.Fail{Property: "C20", Clause: "replay", Detail: err.Error()}
+		}
+		for i := 0; i < 30; i++ {
+			if f := concurrentClose(c.Backend, c.Closers); f != nil {
+				return f
+			}
+		}
+		return nil
+	}
+}
 
 func hostileClasses(s *sm.Session, op cs.Op) []string {
 	var cl []string
@@ -105,7 +128,70 @@ func hostileClasses(s *sm.Session, op cs.Op) []string {
 	return cl
 }
 
+// concurrentClose: several goroutines call Close on one handle at the same time, then use it.
+func concurrentClose(backend string, n int) *sm.Fail {
+	s, err := c20Session(backend)
+	if err != nil {
+		return &sm.Fail{Property: "C20", Clause: "harness", Detail: err.Error()}
+	}
+	defer s.Close()
+	if f := s.Do(cs.Op{Kind: "createcoll", Coll: "A"}); f != nil {
+		return f
+	}
+	outs := make([]*cs.Outcome, n)
+	var wg sync.WaitGroup
+	gate := make(chan struct{})
+	for i := 0; i < n; i++ {
+		wg.Add(1)
+		go func(i int) {
+			defer wg.Done()
+			<-gate
+			outs[i] = run.Exec(s.H.DB, &cs.Op{Kind: "close"})
+		}(i)
+	}
+	close(gate)
+	wg.Wait()
+	for _, o := range outs {
+		if strings.HasPrefix(o.Err, "panic") || o.Err == "hang" {
+			return &sm.Fail{Property: "C20", Clause: "no-panic-no-hang", Detail: fmt.Sprintf("%d concurrent Close calls: %s", n, o.Err)}
+		}
+	}
+	after := run.Exec(s.H.DB, &cs.Op{Kind: "find", Q: &cs.Query{Coll: "A"}})
+	if strings.HasPrefix(after.Err, "panic") || after.Err == "hang" {
+		return &sm.Fail{Property: "C20", Clause: "no-panic-no-hang", Detail: "FindAll after concurrent Close: " + after.Err}
+	}
+	s.M.Closed = true
+	return nil
+}
+
 func TestC20(t *testing.T) {
+	if os.Getenv("VERIF_RACE") == "" {
+		// (the race-enabled shard only runs the concurrent part, with more programs)
+		t.Run("histories", testC20Histories)
+	}
+	t.Run("concurrent", func(t *testing.T) {
+		col := collector("C20", ruleC20)
+		n := cases(60, 1500)
+		if os.Getenv("VERIF_RACE") != "" {
+			n = ev.Scale(120, 1200)
+		}
+		check(t, "C20", n, 0, func(rt *rapid.T) {
+			// no call may panic or hang when several goroutines use the handle (regular-expression,
+			// catalog, bulk and index operations at once), nor when they close it at the same time
+			h, verdict := concurrentCase(rt, "C20", nil)
+			backend := rapid.SampledFrom([]string{run.Bbolt, run.BadgerMem, run.BadgerMem}).Draw(rt, "close-backend")
+			n := rapid.IntRange(2, 8).Draw(rt, "closers")
+			if f := concurrentClose(backend, n); f != nil {
+				violate(rt, "C20", "c20close", map[string]interface{}{"backend": backend, "closers": n}, f)
+			}
+			col.Case(true, hashOf(h.Setup, len(h.Ops), h.Ops[0].Op, backend, n), func() interface{} {
+				return map[string]interface{}{"mode": "concurrent", "backend": h.Backend, "operations": len(h.Ops), "verdict": verdict, "concurrent_close": n}
+			}, "concurrent", "verdict:"+verdict)
+		})
+	})
+}
+
+func testC20Histories(t *testing.T) {
 	(&smCheck{property: "C20", kind: "c20", rule: ruleC20, quick: 2500, thorough: 60000, stepsQ: 25, stepsT: 40,
 		backends: []string{run.Bbolt, run.BadgerMem},
 		profile:  func(rt *rapid.T) *sm.Profile { return c20Profile() },
